@@ -308,6 +308,8 @@ func ParseField(v reflect.Value, bytes []byte, params fieldParameters) error {
 
 		sliceLen := len(valArray)
 		newSlice := reflect.MakeSlice(sliceType, sliceLen, sliceLen)
+		// the tag of the SEQUENCE OF / SET OF itself does not apply to its elements (as in makeField)
+		params.tagNumber = nil
 		for i := 0; i < sliceLen; i++ {
 			errParse := ParseField(newSlice.Index(i), valArray[i], params)
 			if errParse != nil {
